@@ -22,3 +22,5 @@ PROP = {'title': 'Checked conversions and integer helpers equal their mathematic
                  '32/64-bit types are covered on the boundary lattice only',
                  'floating-point mod is compared on operands that are multiples of 1/4 below 2^120 (where the exact remainder is computable in 128-bit integers); div/diff/clamp for floating point are not covered',
                  'interval_distance is compared only where its documentation is unambiguous (no shared end point with containment)']}
+
+PROP['rule'] += ' cast::to_signed/to_unsigned/size on every value that is representable in the result (all 8/16-bit values, lattice for 32/64 bit, all same-signedness type pairs); bit::mask_c / shifted_mask_c for every bit position of u8..u64 with bit::test against every single-bit value.'
